@@ -13,7 +13,6 @@
    calculation gives.
 A calculation that raises is 'no result' and is not judged (CalculationError: no convergence).
 """
-import itertools
 import random
 from fractions import Fraction
 
@@ -251,14 +250,23 @@ def main(tier, seed):
     xsets = {2: [[0.25, 0.75], [0.5, 0.5], [0.75, 0.25], [0.125, 0.875]],
              3: [[0.5, 0.25, 0.25], [0.25, 0.375, 0.375], [0.125, 0.125, 0.75], [0.125, 0.375, 0.5]],
              4: [[0.25, 0.25, 0.25, 0.25], [0.5, 0.25, 0.125, 0.125], [0.125, 0.375, 0.25, 0.25]]}
-    for trial in range(ntrials // 2):
-        n = 2 + trial % 3
-        comp = rng.sample(pool, n)
+    # seeded mixtures, preceded by a fixed family (every model isotherm paired with each TemkinApprox
+    # isotherm at x = 1/2) so that every run, whatever the seed, visits the same binaries
+    fixed = [([c, t], [0.5, 0.5], P) for c in pool if not c[0].startswith(("points:", "TemkinApprox"))
+             for t in pool if t[0].startswith("TemkinApprox") for P in (0.5, 2.0)]
+    for trial in range(-len(fixed), ntrials // 2):
+        if trial < 0:
+            comp, xx, P = fixed[trial]
+            n = 2
+            x = numpy.array(xx)
+        else:
+            n = 2 + trial % 3
+            comp = rng.sample(pool, n)
+            x = numpy.array(rng.choice(xsets[n]))
+            rng.shuffle(x)
+            P = rng.choice([0.5, 1.0, 2.0, 5.0])
         names = [c[0] for c in comp]
         isos = [c[1] for c in comp]
-        x = numpy.array(rng.choice(xsets[n]))
-        rng.shuffle(x)
-        P = rng.choice([0.5, 1.0, 2.0, 5.0])
         cfg = ("point isotherms" if any(v.startswith("points:") for v in names) else "model isotherms") + f", {n} components"
         key = ("relrev", tuple(names), tuple(x.tolist()), P)
         back = attempt("reverse_iast", cfg, lambda: ia.reverse_iast(isos, x, P, warningoff=True), False)
@@ -267,7 +275,10 @@ def main(tier, seed):
             continue
         y, load = (numpy.asarray(v, dtype=float) for v in back)
         if not (numpy.all(numpy.isfinite(load)) and numpy.all(numpy.isfinite(y)) and load.sum() > 0):
-            run.violation({"site": "reverse_iast", "config": cfg, "observed": "returned values are not finite positive numbers"},
+            # typically a spurious root at a gas fraction of exactly 0 (p0 = 0): name the component sitting there
+            zero = sorted({nm.split("#")[0] for nm, yy in zip(names, y) if not yy > 0})
+            run.violation({"site": "reverse_iast", "config": cfg, "observed": "returned values are not finite positive numbers",
+                           "component_at_zero_pressure": "+".join(zero) if zero else "none"},
                           {"components": names, "x": x.tolist(), "P": P, "y": y.tolist(), "load": load.tolist()})
             continue
         p = y * P
